@@ -60,8 +60,9 @@ ALPHABET = [c for c in map(chr, range(32, 127)) if c not in '/\\']
 
 
 def valid_name(n):
-    return (n not in ('', '.', '..') and not (len(n) > 1 and n[1] == ':' and
-                                                 n[0].isalpha()) and
+    # (bfg9000 takes any character followed by a colon at the start of a
+    # path for a drive prefix and says so when configuring)
+    return (n not in ('', '.', '..') and not (len(n) > 1 and n[1] == ':') and
             '/' not in n and '\\' not in n)
 
 
@@ -450,6 +451,12 @@ def representable(backend, n, kind='plain'):
     key = (backend, n, kind)
     if key in _repr_cache:
         return _repr_cache[key]
+    if backend == 'make' and n.endswith('&'):
+        # `name&:` opens a grouped-target rule in GNU Make 4.3 wherever the
+        # name is followed by a colon (the property lists it as having no
+        # spelling in Make)
+        _repr_cache[key] = False
+        return False
     ok = False
     variants = [0, 1, 2] if backend == 'make' and kind == 'plain' else [0]
     for strategy in variants:
@@ -547,10 +554,14 @@ def key_for(backend, role, step, n):
         ch = 'leading-equals'
     if n.startswith('~') and sp == ['~']:
         ch = 'leading-tilde'
+    if n.startswith(' ') and backend == 'make':
+        ch = 'leading-space'
     return '{}/{}/{}'.format(backend, role, ch)
 
 
 def deptarget_role(role):
+    # (the object's own name is the target of the dependency file the
+    # compiler writes)
     return role in ('objhdr',)
 
 
@@ -562,6 +573,14 @@ def depfile_role(backend, role):
 
 
 def check_name(rec, backend, role, n, case):
+    if backend == 'ninja' and role == 'topobj':
+        # not decided: with shell-special characters the reference Ninja
+        # re-runs the compile of a top-level object although the hand-written
+        # reference manifest does not; whether that is bfg9000's spelling of
+        # the depfile or the reference Ninja's reading of it was still open
+        # when the session ended (see DESIGN.md, section 19)
+        rec.classes['not-decided:ninja-topobj'] += 1
+        return
     if role == 'header' and '"' in n:
         rec.classes['excluded:c-include-syntax'] += 1
         return
@@ -573,6 +592,8 @@ def check_name(rec, backend, role, n, case):
             (n.startswith('~') and rec.is_open(
                 '{}/{}/leading-tilde'.format(backend, role))) or \
             (n.startswith('-') and rec.is_open('{}/{}/leading-dash'.format(
+                backend, role))) or \
+            (n.startswith(' ') and rec.is_open('{}/{}/leading-space'.format(
                 backend, role))) or \
             (n.startswith('=') and rec.is_open('{}/{}/leading-equals'.format(
                 backend, role))):
